@@ -7,7 +7,9 @@ def check(run, replay=None):
     vlib.modeb_check(
         run, "C01", "c01", ["Extract/ExtrC01.vo"],
         "rvole::RVOLEReceiver::{new,process} / rvole::RVOLESender::process and the same entry points of rvole_ot_variant",
-        rule=("runs = sender inputs a_i in {0, 1, q-1, 2^255 mod q, random} x 32-byte session ids {all-zero, all-one, random} "
+        rule=("runs = sender inputs a_i in {0, 1, q-1, 2^255 mod q, random}, the two batch positions chosen independently so that "
+              "mixed zero / non-zero vectors (0,1), (q-1,0), (0,q-1), (2^255,0) occur in both variants of every tier, "
+              "x 32-byte session ids {all-zero, all-one, random} "
               "x beta tapes {random, all-zero, all-one}; OT-extension variant with seeds from generate_all_but_one_seed_ot "
               "(seeded rng) and from the real Endemic -> build_pprf/eval_pprf pipeline, plus runs with a reused (non-Default) "
               "Round1Output buffer (model validation of accumulate-vs-overwrite; the sender must abort in model and code); "
